@@ -1,1 +1,476 @@
-fn main() {}
+//! C16 — layout builders and overflow splitting preserve glyph-level lookup semantics.
+//!
+//! (a) `CoverageTableBuilder` / `ClassDef` building: every glyph set over a 10-glyph boundary
+//!     alphabet and every class assignment of <= 5 of those glyphs to classes {0,1,2,5}, in the
+//!     format chosen by the size heuristic and in both formats forced by direct construction;
+//!     compiled, re-read with read-fonts, queried on (alphabet ∪ neighbours).
+//!     `ClassDefBuilder` (glyph classes -> class ids): every assignment of 6 glyphs to <= 3 classes.
+//! (b) `PairPosBuilder` / `MarkToBaseBuilder`: small exhaustive rule sets.
+//! (c) threshold families: rule sets whose compiled sub-table size sweeps the 64 KiB limit one
+//!     record at a time, for 1, 2 and 3 required splits, alone and next to filler lookups that
+//!     force extension promotion.
+//! (b) and (c) are compiled inside a `Gpos` with `dump_table`, re-read with read-fonts and evaluated
+//! by the reference first-match walker in `model.rs` for every glyph pair of (covered ∪ neighbours)².
+
+mod model;
+mod pairs;
+
+use rayon::prelude::*;
+use read_fonts::tables::layout as rl;
+use read_fonts::{FontData, FontRead};
+use serde_json::{json, Value};
+use std::collections::{BTreeMap, BTreeSet, HashSet};
+use vcore::*;
+use write_fonts::tables::layout as wl;
+use write_fonts::tables::layout::builders::{ClassDefBuilder, CoverageTableBuilder};
+use write_fonts::types::GlyphId16;
+
+fn main() {
+    main_for("C16", body)
+}
+
+const G10: [u16; 10] = [0, 1, 2, 3, 5, 6, 7, 100, 0xFFFE, 0xFFFF];
+
+fn universe() -> Vec<u16> {
+    let mut s = BTreeSet::new();
+    for g in G10 {
+        s.insert(g);
+        s.insert(g.saturating_sub(1));
+        s.insert(g.saturating_add(1));
+    }
+    s.into_iter().collect()
+}
+
+fn gid(g: u16) -> GlyphId16 {
+    GlyphId16::new(g)
+}
+
+// ---------------------------------------------------------------------------
+// (a) coverage
+// ---------------------------------------------------------------------------
+
+/// spec-side range computation for the forced format 2
+fn ranges(glyphs: &[u16]) -> Vec<(u16, u16, u16)> {
+    let mut out: Vec<(u16, u16, u16)> = vec![];
+    for (i, g) in glyphs.iter().enumerate() {
+        match out.last_mut() {
+            Some(r) if r.1 as u32 + 1 == *g as u32 => r.1 = *g,
+            _ => out.push((*g, *g, i as u16)),
+        }
+    }
+    out
+}
+
+fn coverage_case(run: &Run, mask: u32, mode: u8, l: &mut Local) {
+    let glyphs: Vec<u16> = (0..10).filter(|i| mask & (1 << i) != 0).map(|i| G10[i]).collect();
+    let case = json!({"family":"coverage","mask":mask,"mode":mode});
+    // mode 0: builder from_glyphs (given in descending order, with a duplicate), 1: builder via add()
+    // in descending order, 2: forced format 1, 3: forced format 2
+    let built = guard(|| -> wl::CoverageTable {
+        match mode {
+            0 => {
+                let mut v: Vec<GlyphId16> = glyphs.iter().rev().map(|g| gid(*g)).collect();
+                if let Some(f) = v.first().copied() {
+                    v.push(f);
+                }
+                CoverageTableBuilder::from_glyphs(v).build()
+            }
+            1 => {
+                let mut b = CoverageTableBuilder::default();
+                for g in glyphs.iter().rev() {
+                    b.add(gid(*g));
+                }
+                // adding an existing glyph returns its index and changes nothing
+                for (i, g) in glyphs.iter().enumerate() {
+                    let ix = b.add(gid(*g));
+                    assert_eq!(ix as usize, i, "CoverageTableBuilder::add returned a wrong index");
+                }
+                b.build()
+            }
+            2 => wl::CoverageTable::format_1(glyphs.iter().map(|g| gid(*g)).collect()),
+            _ => wl::CoverageTable::format_2(ranges(&glyphs).into_iter().map(|(s, e, i)| wl::RangeRecord::new(gid(s), gid(e), i)).collect()),
+        }
+    });
+    l.cases += 1;
+    let names = ["CoverageTableBuilder::from_glyphs", "CoverageTableBuilder::add", "CoverageTable::format_1", "CoverageTable::format_2"];
+    let name = names[mode as usize];
+    let table = match built {
+        Ok(t) => t,
+        Err(p) => {
+            run.violation(&format!("{name}: panic {} [{}]", p.kind(), p.site()), &format!("glyphs {glyphs:?}: {}", p.message), case);
+            return;
+        }
+    };
+    let fmt = match &table {
+        wl::CoverageTable::Format1(_) => 1,
+        wl::CoverageTable::Format2(_) => 2,
+    };
+    let bytes = match guard(|| write_fonts::dump_table(&table)) {
+        Ok(Ok(b)) => b,
+        Ok(Err(e)) => {
+            run.violation(&format!("{name}: dump_table error (format {fmt})"), &format!("glyphs {glyphs:?}: {e}"), case);
+            return;
+        }
+        Err(p) => {
+            run.violation(&format!("{name}: dump_table panic {} [{}]", p.kind(), p.site()), &format!("glyphs {glyphs:?}: {}", p.message), case);
+            return;
+        }
+    };
+    let read = match rl::CoverageTable::read(FontData::new(&bytes)) {
+        Ok(r) => r,
+        Err(e) => {
+            run.violation(&format!("{name}: compiled coverage does not read back (format {fmt})"), &format!("glyphs {glyphs:?}: {e}"), case);
+            return;
+        }
+    };
+    for g in universe() {
+        let want = glyphs.iter().position(|x| *x == g).map(|i| i as u16);
+        let got = read.get(gid(g));
+        if got != want {
+            run.violation(
+                &format!("{name}: coverage index differs (format {fmt})"),
+                &format!("glyphs {glyphs:?}: get({g}) = {got:?}, want {want:?}"),
+                case,
+            );
+            return;
+        }
+    }
+    let listed: Vec<u16> = read.iter().map(|g| g.to_u16()).collect();
+    if listed != glyphs {
+        run.violation(&format!("{name}: coverage iteration differs (format {fmt})"), &format!("glyphs {glyphs:?}: iter = {listed:?}"), case);
+        return;
+    }
+    let mut h = Fnv::new();
+    h.str("cov");
+    h.u64(fmt);
+    h.u64(glyphs.len() as u64);
+    h.u64(ranges(&glyphs).len() as u64);
+    l.all.insert(h.finish());
+    if !glyphs.is_empty() {
+        l.nontrivial.insert(h.finish());
+    }
+    *l.c.entry(if fmt == 1 { "coverage_format1" } else { "coverage_format2" }).or_insert(0) += 1;
+}
+
+// ---------------------------------------------------------------------------
+// (a) class definitions
+// ---------------------------------------------------------------------------
+
+const CLASSES: [u16; 4] = [0, 1, 2, 5];
+
+fn classdef_case(run: &Run, assign: &[(u16, u16)], mode: u8, l: &mut Local) {
+    // assign: ascending glyphs with their class
+    let case = json!({"family":"classdef","assign":assign,"mode":mode});
+    let names = ["ClassDef::from_iter", "ClassDef::format_1", "ClassDef::format_2"];
+    let name = names[mode as usize];
+    l.cases += 1;
+    let built = guard(|| -> Option<wl::ClassDef> {
+        Some(match mode {
+            0 => assign.iter().rev().map(|(g, c)| (gid(*g), *c)).collect(),
+            1 => {
+                // forced format 1: dense array from the first to the last glyph
+                let first = assign.first()?.0;
+                let last = assign.last()?.0;
+                if (last - first) as usize > 200 {
+                    return None; // a 65 K array adds nothing here; spans up to 200 are kept
+                }
+                let arr = (first..=last).map(|g| assign.iter().find(|a| a.0 == g).map(|a| a.1).unwrap_or(0)).collect();
+                wl::ClassDef::format_1(gid(first), arr)
+            }
+            _ => {
+                // forced format 2: maximal runs of consecutive glyphs with equal class
+                let mut recs: Vec<(u16, u16, u16)> = vec![];
+                for (g, c) in assign {
+                    match recs.last_mut() {
+                        Some(r) if r.1 as u32 + 1 == *g as u32 && r.2 == *c => r.1 = *g,
+                        _ => recs.push((*g, *g, *c)),
+                    }
+                }
+                wl::ClassDef::format_2(recs.into_iter().map(|(s, e, c)| wl::ClassRangeRecord::new(gid(s), gid(e), c)).collect())
+            }
+        })
+    });
+    let table = match built {
+        Ok(Some(t)) => t,
+        Ok(None) => {
+            l.cases -= 1;
+            return;
+        }
+        Err(p) => {
+            run.violation(&format!("{name}: panic {} [{}]", p.kind(), p.site()), &format!("{assign:?}: {}", p.message), case);
+            return;
+        }
+    };
+    let fmt = match &table {
+        wl::ClassDef::Format1(_) => 1,
+        wl::ClassDef::Format2(_) => 2,
+    };
+    let bytes = match guard(|| write_fonts::dump_table(&table)) {
+        Ok(Ok(b)) => b,
+        Ok(Err(e)) => {
+            run.violation(&format!("{name}: dump_table error (format {fmt})"), &format!("{assign:?}: {e}"), case);
+            return;
+        }
+        Err(p) => {
+            run.violation(&format!("{name}: dump_table panic {} [{}]", p.kind(), p.site()), &format!("{assign:?}: {}", p.message), case);
+            return;
+        }
+    };
+    let read = match rl::ClassDef::read(FontData::new(&bytes)) {
+        Ok(r) => r,
+        Err(e) => {
+            run.violation(&format!("{name}: compiled class def does not read back (format {fmt})"), &format!("{assign:?}: {e}"), case);
+            return;
+        }
+    };
+    for g in universe() {
+        let want = assign.iter().find(|a| a.0 == g).map(|a| a.1).unwrap_or(0);
+        let got = read.get(gid(g));
+        if got != want {
+            run.violation(&format!("{name}: class query differs (format {fmt})"), &format!("{assign:?}: get({g}) = {got}, want {want}"), case);
+            return;
+        }
+    }
+    let mut h = Fnv::new();
+    h.str("cd");
+    h.u64(fmt);
+    h.u64(assign.len() as u64);
+    let mut cs: Vec<u16> = assign.iter().map(|a| a.1).collect();
+    cs.sort();
+    cs.dedup();
+    h.u64(cs.len() as u64);
+    l.all.insert(h.finish());
+    if assign.iter().any(|a| a.1 != 0) {
+        l.nontrivial.insert(h.finish());
+    }
+    *l.c.entry(if fmt == 1 { "classdef_format1" } else { "classdef_format2" }).or_insert(0) += 1;
+}
+
+/// `ClassDefBuilder`: glyphs G6 each assigned to none / class A / B / C; classes added in `order`.
+const G6: [u16; 6] = [1, 2, 3, 5, 6, 100];
+
+fn classdef_builder_case(run: &Run, code: u32, order: u8, class0: bool, l: &mut Local) {
+    let case = json!({"family":"classdef_builder","code":code,"order":order,"class0":class0});
+    let mut sets: Vec<BTreeSet<u16>> = vec![BTreeSet::new(); 3];
+    let mut c = code;
+    for g in G6 {
+        let a = c % 4;
+        c /= 4;
+        if a > 0 {
+            sets[a as usize - 1].insert(g);
+        }
+    }
+    let sets: Vec<BTreeSet<u16>> = sets.into_iter().filter(|s| !s.is_empty()).collect();
+    let perm: Vec<usize> = match (sets.len(), order) {
+        (_, 0) => (0..sets.len()).collect(),
+        (_, _) => (0..sets.len()).rev().collect(),
+    };
+    l.cases += 1;
+    let name = if class0 { "ClassDefBuilder(new_using_class_0)" } else { "ClassDefBuilder" };
+    let res = guard(|| {
+        let mut b = if class0 { ClassDefBuilder::new_using_class_0() } else { ClassDefBuilder::new() };
+        let mut added = vec![];
+        for i in &perm {
+            let set: read_fonts::collections::IntSet<GlyphId16> = sets[*i].iter().map(|g| gid(*g)).collect();
+            added.push(b.checked_add(set));
+        }
+        // an overlapping, different class must be refused and leave the builder unchanged
+        let mut refused_ok = true;
+        if let Some(first) = sets.first() {
+            let mut overl: BTreeSet<u16> = first.clone();
+            overl.insert(4000);
+            let set: read_fonts::collections::IntSet<GlyphId16> = overl.iter().map(|g| gid(*g)).collect();
+            refused_ok = !b.checked_add(set);
+        }
+        let (cd, map) = b.build_with_mapping();
+        let ids: Vec<Option<u16>> = sets
+            .iter()
+            .map(|s| {
+                let set: read_fonts::collections::IntSet<GlyphId16> = s.iter().map(|g| gid(*g)).collect();
+                map.get(&set).copied()
+            })
+            .collect();
+        (added, refused_ok, write_fonts::dump_table(&cd), ids)
+    });
+    let (added, refused_ok, bytes, ids) = match res {
+        Ok(x) => x,
+        Err(p) => {
+            run.violation(&format!("{name}: panic {} [{}]", p.kind(), p.site()), &format!("{sets:?}: {}", p.message), case);
+            return;
+        }
+    };
+    if added.iter().any(|a| !a) || !refused_ok {
+        run.violation(&format!("{name}: checked_add answer wrong"), &format!("{sets:?}: added {added:?}, overlapping class refused: {refused_ok}"), case);
+        return;
+    }
+    let Ok(bytes) = bytes else {
+        run.violation(&format!("{name}: dump_table error"), &format!("{sets:?}"), case);
+        return;
+    };
+    let read = match rl::ClassDef::read(FontData::new(&bytes)) {
+        Ok(r) => r,
+        Err(e) => {
+            run.violation(&format!("{name}: compiled class def does not read back"), &format!("{sets:?}: {e}"), case);
+            return;
+        }
+    };
+    // every class has an id, ids are distinct and form 1..=n (0..n when class 0 is used)
+    let mut seen = BTreeSet::new();
+    for (s, id) in sets.iter().zip(&ids) {
+        let Some(id) = id else {
+            run.violation(&format!("{name}: class missing from mapping"), &format!("{sets:?}: {s:?}"), case);
+            return;
+        };
+        seen.insert(*id);
+        for g in s {
+            let got = read.get(gid(*g));
+            if got != *id {
+                run.violation(&format!("{name}: class query differs from mapping"), &format!("{sets:?}: glyph {g} reads class {got}, mapping says {id}"), case);
+                return;
+            }
+        }
+    }
+    let base = if class0 { 0 } else { 1 };
+    let want: BTreeSet<u16> = (0..sets.len() as u16).map(|i| i + base).collect();
+    if seen != want {
+        run.violation(&format!("{name}: class ids not dense/distinct"), &format!("{sets:?}: ids {ids:?}"), case);
+        return;
+    }
+    // glyphs in no class read 0 (checked only when 0 is not itself a class id)
+    if !class0 {
+        for g in universe() {
+            if !sets.iter().any(|s| s.contains(&g)) && read.get(gid(g)) != 0 {
+                run.violation(&format!("{name}: unassigned glyph has a class"), &format!("{sets:?}: glyph {g} reads {}", read.get(gid(g))), case);
+                return;
+            }
+        }
+    }
+    let mut h = Fnv::new();
+    h.str("cdb");
+    h.u64(sets.len() as u64);
+    h.u64(class0 as u64);
+    for s in &sets {
+        h.u64(s.len() as u64);
+    }
+    l.all.insert(h.finish());
+    if sets.len() >= 2 {
+        l.nontrivial.insert(h.finish());
+    }
+}
+
+#[derive(Default)]
+pub struct Local {
+    pub all: HashSet<u64>,
+    pub nontrivial: HashSet<u64>,
+    pub cases: u64,
+    pub pairs: u64,
+    pub c: BTreeMap<&'static str, u64>,
+}
+
+pub fn merge(run: &Run, locals: &[Local], name: &str) {
+    let mut cases = 0;
+    for l in locals {
+        run.observe_many(&l.all, &l.nontrivial);
+        cases += l.cases;
+        run.count("glyph_pairs_evaluated", l.pairs);
+        for (k, v) in &l.c {
+            run.count(k, *v);
+        }
+    }
+    run.evals(cases);
+    run.trans(cases * 3); // build, compile, read back
+    run.count(&format!("cases[{name}]"), cases);
+    println!("  {name}: {cases} cases, t={:.1}s", run.elapsed());
+}
+
+/// all class assignments of <= 5 glyphs of G10 to CLASSES
+fn class_assignments() -> Vec<Vec<(u16, u16)>> {
+    let mut out = vec![];
+    for mask in 0u32..1024 {
+        let gs: Vec<u16> = (0..10).filter(|i| mask & (1 << i) != 0).map(|i| G10[i]).collect();
+        if gs.len() > 5 {
+            continue;
+        }
+        let n = 4usize.pow(gs.len() as u32);
+        for code in 0..n {
+            let mut c = code;
+            let a: Vec<(u16, u16)> = gs
+                .iter()
+                .map(|g| {
+                    let cl = CLASSES[c % 4];
+                    c /= 4;
+                    (*g, cl)
+                })
+                .collect();
+            out.push(a);
+        }
+    }
+    out
+}
+
+fn part_a(run: &Run) {
+    run.bound("coverage_glyph_alphabet", json!(G10));
+    run.bound("classdef_classes", json!(CLASSES));
+    let covs: Vec<(u32, u8)> = (0u32..1024).flat_map(|m| (0..4u8).map(move |mode| (m, mode))).collect();
+    let locals: Vec<Local> = covs
+        .par_iter()
+        .fold(Local::default, |mut l, (m, mode)| {
+            coverage_case(run, *m, *mode, &mut l);
+            l
+        })
+        .collect();
+    merge(run, &locals, "coverage: 2^10 glyph sets x {from_glyphs, add, forced format 1, forced format 2}");
+    let assigns = class_assignments();
+    let locals: Vec<Local> = assigns
+        .par_iter()
+        .fold(Local::default, |mut l, a| {
+            for mode in 0..3 {
+                classdef_case(run, a, mode, &mut l);
+            }
+            l
+        })
+        .collect();
+    merge(run, &locals, "classdef: assignments of <=5 glyphs to {0,1,2,5} x {heuristic, forced format 1, forced format 2}");
+    let codes: Vec<(u32, u8, bool)> = (0u32..4096).flat_map(|c| [(c, 0, false), (c, 1, false), (c, 0, true), (c, 1, true)]).collect();
+    let locals: Vec<Local> = codes
+        .par_iter()
+        .fold(Local::default, |mut l, (c, o, z)| {
+            classdef_builder_case(run, *c, *o, *z, &mut l);
+            l
+        })
+        .collect();
+    merge(run, &locals, "ClassDefBuilder: 4^6 assignments of 6 glyphs to <=3 classes x 2 insertion orders x class-0 mode");
+}
+
+fn body(run: &Run, replay: Option<&Value>) {
+    run.rule("a case is one builder input (glyph set / class assignment / pair or mark-base rule set) built by the real builders, compiled with dump_table and re-read with read-fonts; every glyph (pair) of covered ∪ neighbours is queried. distinct = distinct (table kind, chosen formats, number of sub-tables after splitting, extension promotion, size class of the input); non-trivial = non-empty coverage / a non-zero class / a lookup that was split or promoted or mixes formats");
+    run.assume("lookup semantics used by the reference walker (OpenType GPOS): sub-tables are tried in order; PairPos format 1 applies iff the first glyph is covered and its PairSet lists the second glyph; format 2 applies iff the first glyph is covered; MarkBasePos applies iff both glyphs are covered and the base has an anchor for the mark's class; an all-zero value record is the same as no adjustment");
+    run.assume("class-pair rules: rules are grouped into sub-tables by the documented rule of PairPosBuilder (a rule whose class overlaps, without being equal to, an earlier class of the group starts a new group); within the compiled lookup an earlier group shadows later ones for the first glyphs it covers — the reference model reproduces that grouping, it is not judged");
+    run.assume("read-fonts' record parsers (ValueRecord, PairSet, Class1Record, MarkArray, BaseArray, Anchor, Device) are trusted to report the bytes they are given; C05's byte-level decoder covers them independently");
+    if let Some(case) = replay {
+        let mut l = Local::default();
+        match case["family"].as_str().unwrap_or("") {
+            "coverage" => coverage_case(run, case["mask"].as_u64().unwrap_or(0) as u32, case["mode"].as_u64().unwrap_or(0) as u8, &mut l),
+            "classdef" => {
+                let a: Vec<(u16, u16)> = case["assign"].as_array().map(|v| v.iter().map(|p| (p[0].as_u64().unwrap_or(0) as u16, p[1].as_u64().unwrap_or(0) as u16)).collect()).unwrap_or_default();
+                classdef_case(run, &a, case["mode"].as_u64().unwrap_or(0) as u8, &mut l)
+            }
+            "classdef_builder" => classdef_builder_case(run, case["code"].as_u64().unwrap_or(0) as u32, case["order"].as_u64().unwrap_or(0) as u8, case["class0"].as_bool().unwrap_or(false), &mut l),
+            _ => pairs::replay(run, case),
+        }
+        return;
+    }
+    let only = std::env::var("C16_ONLY").unwrap_or_default(); // development aid, never set by ./check
+    if only.is_empty() || only == "a" {
+        part_a(run);
+    }
+    if only.is_empty() || only == "b" {
+        pairs::part_b(run);
+    }
+    if only.is_empty() || only == "c" {
+        pairs::part_c(run);
+    }
+    if !only.is_empty() {
+        run.cap_hit("C16_ONLY set: only one part was run");
+    }
+}
